@@ -3,6 +3,7 @@ package mon
 import (
 	"fmt"
 	"regexp"
+	"verif/internal/runner"
 
 	"github.com/antonmedv/expr/vm"
 )
@@ -351,6 +352,8 @@ func RunTraced(m *vm.VM, p *vm.Program, env interface{}, t *Trace) (out interfac
 		}
 	}()
 	m.SetVerifHook(t.Hook)
+	runner.LibEnter()
+	defer runner.LibLeave()
 	out, err = m.Run(p, env)
 	return
 }
